@@ -42,6 +42,10 @@ func init() {
 		g.callSeq(c04Group, sched, "Scheduler.calculateExistingNodeClaims", "existingNodeCalls", []string{"Taints", "getCompatibleDaemonPods", "NewExistingNode"})
 		g.callSeq(c04Group, sched, "ExistingNode.CanAdd", "existingCanAddCalls", []string{"ToleratesPod", "ExceedsLimits", "Conflicts", "Fits", "Compatible"})
 		g.c04IfConds(sched, "ExistingNode.CanAdd", "existingCanAddConds")
+		// a failing volume alternative is skipped, not final; daemon pods are checked against an existing node's labels
+		// with no undefined key allowed
+		g.c04AfterCallFailure(sched, "ExistingNode.CanAdd", "tryVolumeAlternative", "volumeAlternativeFailure")
+		g.c04CallArgs(sched, "Scheduler.isDaemonPodCompatibleWithNode", "Compatible", "daemonNodeCompatibleArgs")
 		// the StateNode views
 		for _, fn := range []string{"Taints", "Labels", "Allocatable", "Capacity", "Registered", "Initialized", "Managed", "MarkedForDeletion", "Deleted", "HostName", "Name"} {
 			g.c04IfConds(state, "StateNode."+fn, "stateNode"+fn+"Conds")
@@ -207,6 +211,103 @@ func (g *gen) c04CallArg(pkgPath, fn, callee string, i int, lean string) {
 		g.errf("%s.%s: no call of %s", pkgPath, fn, callee)
 	}
 	fmt.Fprintf(g.out(c04Group), "/-- argument %d of the call of `%s` in `%s.%s` (%s) -/\ndef %s : String := %s\n\n", i, callee, pkgPath, fn, g.pos(fd.Pos()), lean, leanStr(arg))
+}
+
+// c04CallArgs renders every argument of the first call whose callee ends with `callee`.
+func (g *gen) c04CallArgs(pkgPath, fn, callee, lean string) {
+	_, fd := g.findFunc(pkgPath, fn)
+	if fd == nil {
+		return
+	}
+	args := []string{}
+	found := false
+	ast.Inspect(fd.Body, func(n ast.Node) bool {
+		ce, ok := n.(*ast.CallExpr)
+		if !ok || found {
+			return true
+		}
+		name := exprString(ce.Fun)
+		if name == callee || strings.HasSuffix(name, "."+callee) {
+			found = true
+			for _, a := range ce.Args {
+				args = append(args, types.ExprString(a))
+			}
+		}
+		return true
+	})
+	if !found {
+		g.errf("%s.%s: no call of %s", pkgPath, fn, callee)
+	}
+	fmt.Fprintf(g.out(c04Group), "/-- the arguments of the call of `%s` in `%s.%s` (%s) -/\ndef %s : List String := %s\n\n", callee, pkgPath, fn, g.pos(fd.Pos()), lean, leanStrList(args))
+}
+
+// c04AfterCallFailure: inside a loop of the function, the statement `x, err := …callee(…)` is followed by `if err != nil {…}`;
+// emits the statements of that block (assignments as `lhs = rhs`, `continue` / `break`, `return …`), and whether the pair
+// sits directly in the body of a `for … range` loop.
+func (g *gen) c04AfterCallFailure(pkgPath, fn, callee, lean string) {
+	_, fd := g.findFunc(pkgPath, fn)
+	if fd == nil {
+		return
+	}
+	var out []string
+	found := false
+	ast.Inspect(fd.Body, func(n ast.Node) bool {
+		rs, ok := n.(*ast.RangeStmt)
+		if !ok || found {
+			return true
+		}
+		for i, st := range rs.Body.List {
+			as, ok := st.(*ast.AssignStmt)
+			if !ok || len(as.Rhs) != 1 {
+				continue
+			}
+			ce, ok := as.Rhs[0].(*ast.CallExpr)
+			if !ok {
+				continue
+			}
+			name := exprString(ce.Fun)
+			if name != callee && !strings.HasSuffix(name, "."+callee) {
+				continue
+			}
+			if i+1 >= len(rs.Body.List) {
+				continue
+			}
+			is, ok := rs.Body.List[i+1].(*ast.IfStmt)
+			if !ok {
+				continue
+			}
+			found = true
+			out = append(out, "if "+types.ExprString(is.Cond))
+			for _, b := range is.Body.List {
+				switch v := b.(type) {
+				case *ast.AssignStmt:
+					var l, r []string
+					for _, e := range v.Lhs {
+						l = append(l, types.ExprString(e))
+					}
+					for _, e := range v.Rhs {
+						r = append(r, types.ExprString(e))
+					}
+					out = append(out, strings.Join(l, ", ")+" "+v.Tok.String()+" "+strings.Join(r, ", "))
+				case *ast.BranchStmt:
+					out = append(out, v.Tok.String())
+				case *ast.ReturnStmt:
+					var r []string
+					for _, e := range v.Results {
+						r = append(r, types.ExprString(e))
+					}
+					out = append(out, strings.TrimSpace("return "+strings.Join(r, ", ")))
+				default:
+					out = append(out, "other")
+				}
+			}
+		}
+		return true
+	})
+	if !found {
+		g.errf("%s.%s: no `… := %s(…)` followed by an `if` inside a range loop", pkgPath, fn, callee)
+	}
+	fmt.Fprintf(g.out(c04Group), "/-- in a `for … range` loop of `%s.%s` (%s): the `if` that follows the call of `%s` and the statements of its block -/\ndef %s : List String := %s\n\n", pkgPath, fn, g.pos(fd.Pos()), callee, lean, leanStrList(out))
 }
 
 // c04Assigns lists `lhs = rhs` for every assignment in the function whose left side mentions `field`.
